@@ -37,18 +37,18 @@ type sentenceOpts struct {
 }
 
 type sentenceResult struct {
-	Env      *gram.Env
-	Guard    *gram.Guard
-	Log      []attempt
+	Env   *gram.Env
+	Guard *gram.Guard
+	Log   []attempt
 	// LogTruncated: the attempt log reached its cap; the furthest failure can no longer be computed from it
 	LogTruncated bool
-	RootEnds map[int]bool // ends of the alternatives the root returned at offset 0
-	Node     parsley.Node
-	Value    interface{}
-	Err      error
-	Budget   string
-	Bound    *gram.BoundViolation
-	Panic    string
+	RootEnds     map[int]bool // ends of the alternatives the root returned at offset 0
+	Node         parsley.Node
+	Value        interface{}
+	Err          error
+	Budget       string
+	Bound        *gram.BoundViolation
+	Panic        string
 }
 
 // concatInterp evaluates every child and concatenates what it gets; bound to every sequence node
